@@ -147,7 +147,7 @@ sub_states (Ctx& c, uint64_t b, uint64_t e)
     c.cls ("nrand48_returned_0", n_izero);
     if (wdiff >= 0) c.worst ("erand48.abs_diff_vs_posix_over_2^-48 (must be < 1)", wdiff, widx, [&] { return Obj ().kv ("state_before", hex64 (wstate)).str (); });
 }
-MON_SUB (sub_states, "rand48_states", 20000000, 640000000)
+MON_SUB (sub_states, "rand48_states", 20000000, 1280000000)
     .req ({"uniform", "state_zero", "state_allones", "succ_zero_erand48_min", "succ_allones_erand48_max", "succ_hi31_ones", "succ_hi31_zero", "succ_hi16_ones", "succ_hi16_zero",
            "word_combo", "succ_word_combo", "single_bit", "succ_single_bit", "succ_near_min", "succ_near_max", "erand48_returned_min", "erand48_returned_max",
            "nrand48_returned_0x7fffffff", "nrand48_returned_0"})
@@ -174,12 +174,14 @@ struct Local // per-thread-per-chunk tallies, flushed by the caller
     uint64_t n_f_zero[2] = {0, 0}, n_f_max[2] = {0, 0};
     double   w_range[2] = {-1, -1}; uint64_t w_idx[2] = {0, 0}; double w_a[2] = {0, 0}, w_b[2] = {0, 0}, w_v[2] = {0, 0};
     double   w_solid = -1e300, w_hollow = -1;
+    uint64_t n_skipped = 0;
     void flush (Ctx& c)
     {
         for (unsigned k = 0; k < K_COUNT; ++k) if (n_op[k]) c.cls (K_NAMES[k], n_op[k]);
         for (unsigned g = 0; g < 2; ++g)
             for (unsigned k = 0; k < RC_COUNT; ++k)
                 if (n_rc[g][k]) c.cls (std::string (g ? "Rand48." : "Rand32.") + RC_NAMES[k], n_rc[g][k]);
+        if (n_skipped) c.cls ("skipped_generator_makes_samplers_hang", n_skipped);
         if (n_f_zero[0]) c.cls ("Rand32.nextf_returned_0", n_f_zero[0]);
         if (n_f_zero[1]) c.cls ("Rand48.nextf_returned_0", n_f_zero[1]);
         if (n_f_max[0]) c.cls ("Rand32.nextf_returned_max", n_f_max[0]);
@@ -335,6 +337,13 @@ exec_member (Ctx& c, uint64_t idx, R& g, const MemberOp& op, bool judge, Local& 
             return fbits (v);
         }
         case K_INIT: g.init (op.seed); return 0;
+        default: break;
+    }
+    // samplers: rejection loops, see sampler_probe() / SamplerGuard in c18_common.h
+    if (sampler_probe ().hang[G]) { if (judge) ++L.n_skipped; return 0; }
+    SamplerGuard guard;
+    switch (op.kind)
+    {
         case K_SOLID: {
             uint64_t s = state_of (g);
             V3f      v = IM::solidSphereRand<V3f> (g);
@@ -472,6 +481,7 @@ static void
 sub_histories (Ctx& c, uint64_t b, uint64_t e)
 {
     Local    L;
+    report_probe (c, b);
     uint64_t n_calls = 0, n_e = 0, n_n = 0, n_s = 0, n_l = 0, n_d = 0, n_m48 = 0, n_m32 = 0, n_seedcls[SS_COUNT] = {0}, n_bstate = 0, n_len[3] = {0, 0, 0};
     for (uint64_t idx = b; idx < e; ++idx)
     {
@@ -586,7 +596,7 @@ sub_histories (Ctx& c, uint64_t b, uint64_t e)
     for (unsigned k = 0; k < SS_COUNT; ++k) c.cls (SS_NAMES[k], n_seedcls[k]);
     L.flush (c);
 }
-MON_SUB (sub_histories, "call_histories", 400000, 12000000)
+MON_SUB (sub_histories, "call_histories", 400000, 24000000)
     .req ({"op_erand48", "op_nrand48", "op_srand48", "op_lrand48", "op_drand48", "op_Rand48_member", "op_Rand32_member", "op_init", "op_nextb", "op_nexti", "op_nextf", "op_nextf_range",
            "op_solidSphereRand", "op_hollowSphereRand", "op_gaussRand", "op_gaussSphereRand", "caller_state_boundary", "length_1", "length_2_63", "length_64", "seed_zero", "seed_minus1",
            "seed_0xffffffff", "seed_bit32_and_up", "seed_long_max", "seed_long_min", "seed_random32", "seed_random64", "seed_lrand48_max", "seed_lrand48_zero"})
@@ -691,7 +701,7 @@ sub_members (Ctx& c, uint64_t b, uint64_t e)
     }
     L.flush (c);
 }
-MON_SUB (sub_members, "member_sequences", 10000, 300000)
+MON_SUB (sub_members, "member_sequences", 10000, 600000)
     .req ({"seed_extreme", "state_injected_extreme", "seed_random32", "seed_random64", "op_nextb", "op_nexti", "op_nextf", "op_nextf_range",
            "Rand32.range_ordered", "Rand32.range_reversed", "Rand32.range_equal", "Rand32.range_huge", "Rand32.range_tiny", "Rand32.range_unit", "Rand32.range_mixed_scale", "Rand32.range_zero",
            "Rand48.range_ordered", "Rand48.range_reversed", "Rand48.range_equal", "Rand48.range_huge", "Rand48.range_tiny", "Rand48.range_unit", "Rand48.range_mixed_scale", "Rand48.range_zero",
